@@ -123,6 +123,13 @@ def unknown_rights_dropped(ctx):
                     if ok or cur.parent not in F.bodies:
                         break
                     cur = F.bodies[cur.parent]
+                if not ok:
+                    # the same decision written with `?` / `match` on the lookup in the body that builds the chain
+                    edges = []
+                    for x in body.calls(r'RevisionMap::<K, V>::(get|get_latest)$'):
+                        if flags.PAIR_TY in x.full:
+                            edges += lib.present_edges(body, x)
+                    ok = bool(edges) and body.edges_dominate(edges, b)
                 ctx.check(ok, 'core::primitives::refresh_coordinate_keys', 'chain-built<=right-in-master-key',
                           'a refreshed chain is produced (line %d) outside the Some edge of the lookup of its right in '
                           'the master key: rights deleted from the master key survive the refresh' % st['ln'],
